@@ -188,6 +188,7 @@ type SolverResult struct {
 	Model   string
 	Raw     string
 	PerSolver map[string]string
+	Retried bool // answer obtained in the low-contention second pass
 }
 
 var symRe = regexp.MustCompile(`\|[^|]*\||[A-Za-z_$.!@%^&*~?<>=/+\-][A-Za-z0-9_$.!@%^&*~?<>=/+\-]*`)
